@@ -117,7 +117,7 @@ pub struct WideCase {
 const TYPES: [&str; 9] = ["i8", "i16", "i32", "i64", "u8", "u16", "u32", "u64", "usize"];
 
 /// the type's limits rounded toward zero to f32-representable values
-fn repr_limits(ty: u8) -> (f64, f64) {
+pub fn repr_limits(ty: u8) -> (f64, f64) {
     match ty % 9 {
         0 => (-128.0, 127.0),
         1 => (-32768.0, 32767.0),
@@ -181,7 +181,7 @@ fn wide_strategy() -> impl Strategy<Value = WideCase> {
 
 const WIDE_LABELS: [&str; 12] = ["i8", "i16", "i32", "i64", "u8", "u16", "u32", "u64", "usize", "at_type_limit", "beyond_2^24", "a_eq_b"];
 
-fn wide_judge(c: &WideCase, obs: &mut Obs) -> Result<(), String> {
+pub fn wide_judge(c: &WideCase, obs: &mut Obs) -> Result<(), String> {
     let ty = c.ty % 9;
     obs.label(ty as usize);
     let (lo_r, hi_r) = repr_limits(ty);
@@ -245,7 +245,7 @@ fn float_strategy() -> impl Strategy<Value = FloatCase> {
     })
 }
 
-fn float_judge(c: &FloatCase, obs: &mut Obs) -> Result<(), String> {
+pub fn float_judge(c: &FloatCase, obs: &mut Obs) -> Result<(), String> {
     use glam::*;
     let (a, b) = (c.a, c.b);
     let mut prev: Option<(f32, f32)> = None;
@@ -503,4 +503,6 @@ pub fn c14(run: &mut Run) {
         run.tier.pick(800_000, 25_000_000),
         float_judge,
     );
+    crate::fuzzdrv::campaign(run, "fz_c14", 3_200_000);
+    crate::fuzzdrv::campaign(run, "fz_c14f", 3_200_000);
 }
